@@ -1,6 +1,6 @@
 --------------------------- MODULE MC_DbPathGuard ---------------------------
 EXTENDS DbPathGuard
 MC_Pool == {".", "..", "real", "sub", "lnk_etc", "lnk_real", "lnk_up", "missing", "etc", "etcetera",
-            "usr", "usrlocal", "ssl", "bin", "w", "lnk_via", "lnk_out"}
+            "usr", "usrlocal", "ssl", "bin", "w", "lnk_via", "lnk_out", "..data"}
 MC_Cwd == <<"w">>
 =============================================================================
